@@ -31,9 +31,166 @@ type mustAfter struct {
 
 // escapes: the returns of fn reachable from (b, idx) without the action, under the assumed values.
 func (m *mustAfter) escapes(fn *ssa.Function, b *ssa.BasicBlock, idx int, assume map[ssa.Value]constant.Value) []*ssa.Return {
+	return m.escapesF(fn, b, idx, assume, nil)
+}
+
+// knownFacts: relations that hold whenever control is at the head of block s having arrived over
+// the edge from->s: the edge's own relation and those of the edges on the dominator chain of
+// `from` (an SSA value does not change, so a relation between two SSA values that held stays
+// true as long as the values are not re-defined, i.e. as long as their blocks are not re-entered;
+// facts whose operands are defined in a block reachable from s are dropped).
+func knownFacts(from, s *ssa.BasicBlock) []an.Rel {
+	var facts []an.Rel
+	add := func(a, b *ssa.BasicBlock) {
+		if cnd, t, ok := an.EdgeCond(a, b); ok {
+			facts = append(facts, an.Normalize(cnd, t))
+		}
+	}
+	add(from, s)
+	for x := from; x != nil; x = x.Idom() {
+		if len(x.Preds) == 1 {
+			add(x.Preds[0], x)
+		}
+	}
+	// blocks reachable from s
+	reach := map[*ssa.BasicBlock]bool{}
+	work := []*ssa.BasicBlock{s}
+	for len(work) > 0 {
+		x := work[len(work)-1]
+		work = work[:len(work)-1]
+		if reach[x] {
+			continue
+		}
+		reach[x] = true
+		work = append(work, x.Succs...)
+	}
+	defBlock := func(v ssa.Value) *ssa.BasicBlock {
+		if in, ok := v.(ssa.Instruction); ok {
+			return in.Block()
+		}
+		return nil
+	}
+	var out []an.Rel
+	for _, f := range facts {
+		stable := true
+		for _, v := range []ssa.Value{f.X, f.Y} {
+			if v == nil {
+				continue
+			}
+			// a load is only as stable as the memory it reads: handled separately (sameOperand)
+			if db := defBlock(v); db != nil && reach[db] && db != from {
+				stable = false
+			}
+		}
+		if stable {
+			out = append(out, f)
+		}
+	}
+	return out
+}
+
+// sameOperand: identical SSA value, equal constants, or two loads of the same access path.
+func sameOperand(a, b ssa.Value, loadsOK bool) bool {
+	if a == b {
+		return true
+	}
+	if a == nil || b == nil {
+		return false
+	}
+	if ca, ok := an.ConstVal(a); ok {
+		if cb, ok := an.ConstVal(b); ok {
+			return ca.Kind() == cb.Kind() && constant.Compare(ca, token.EQL, cb)
+		}
+		return false
+	}
+	if an.IsNil(a) && an.IsNil(b) {
+		return true
+	}
+	if !loadsOK {
+		return false
+	}
+	ua, ok1 := a.(*ssa.UnOp)
+	ub, ok2 := b.(*ssa.UnOp)
+	if ok1 && ok2 && ua.Op == token.MUL && ub.Op == token.MUL {
+		pa, pb := an.Path(ua.X), an.Path(ub.X)
+		return pa != "" && pa == pb
+	}
+	return false
+}
+
+// contradicts: r cannot hold given fact f.
+func contradicts(f, r an.Rel, loadsOK bool) bool {
+	if f.Op == token.ILLEGAL || r.Op == token.ILLEGAL {
+		return f.Op == token.ILLEGAL && r.Op == token.ILLEGAL && f.X == r.X && f.Truth != r.Truth
+	}
+	// X == c1 rules out X == c2 for a different constant (and is compatible with X != c2)
+	if f.Op == token.EQL && sameOperand(f.X, r.X, loadsOK) {
+		if c1, ok1 := an.ConstVal(f.Y); ok1 {
+			if c2, ok2 := an.ConstVal(r.Y); ok2 && c1.Kind() == c2.Kind() && !constant.Compare(c1, token.EQL, c2) {
+				return r.Op == token.EQL
+			}
+		}
+	}
+	same := sameOperand(f.X, r.X, loadsOK) && sameOperand(f.Y, r.Y, loadsOK)
+	if !same {
+		return false
+	}
+	switch {
+	case f.Op == token.EQL && r.Op == token.NEQ, f.Op == token.NEQ && r.Op == token.EQL:
+		return true
+	case f.Op == token.EQL && (r.Op == token.LSS || r.Op == token.GTR):
+		return true
+	}
+	return false
+}
+
+// escapesF is escapes with known facts: an edge whose relation contradicts a fact is not taken.
+// Facts about loads are used only in blocks that cannot be reached from the start over a call or a
+// store (memory unchanged since the fact was established).
+func (m *mustAfter) escapesF(fn *ssa.Function, b *ssa.BasicBlock, idx int, assume map[ssa.Value]constant.Value, facts []an.Rel) []*ssa.Return {
 	type st struct {
 		b   *ssa.BasicBlock
 		idx int
+	}
+	// blocks reachable only through call/store-free code
+	impure := map[*ssa.BasicBlock]bool{}
+	if len(facts) > 0 {
+		dirty := func(x *ssa.BasicBlock, from int) bool {
+			for i := from; i < len(x.Instrs); i++ {
+				switch x.Instrs[i].(type) {
+				case *ssa.Call, *ssa.Store, *ssa.Go, *ssa.Defer, *ssa.MapUpdate, *ssa.Send:
+					return true
+				}
+			}
+			return false
+		}
+		var mark func(x *ssa.BasicBlock)
+		mark = func(x *ssa.BasicBlock) {
+			if impure[x] {
+				return
+			}
+			impure[x] = true
+			for _, y := range x.Succs {
+				mark(y)
+			}
+		}
+		seenP := map[*ssa.BasicBlock]bool{}
+		var walk func(x *ssa.BasicBlock, from int)
+		walk = func(x *ssa.BasicBlock, from int) {
+			if dirty(x, from) {
+				for _, y := range x.Succs {
+					mark(y)
+				}
+				return
+			}
+			for _, y := range x.Succs {
+				if !seenP[y] {
+					seenP[y] = true
+					walk(y, 0)
+				}
+			}
+		}
+		walk(b, idx)
 	}
 	seen := map[*ssa.BasicBlock]bool{}
 	work := []st{{b, idx}}
@@ -56,6 +213,18 @@ func (m *mustAfter) escapes(fn *ssa.Function, b *ssa.BasicBlock, idx int, assume
 			continue
 		}
 		for _, s := range cur.b.Succs {
+			if cnd, t, ok := an.EdgeCond(cur.b, s); ok && len(facts) > 0 {
+				r := an.Normalize(cnd, t)
+				pruned := false
+				for _, f := range facts {
+					if contradicts(f, r, !impure[cur.b]) {
+						pruned = true
+					}
+				}
+				if pruned {
+					continue
+				}
+			}
 			if cnd, t, ok := an.EdgeCond(cur.b, s); ok && len(assume) > 0 {
 				r := an.Normalize(cnd, t)
 				if (r.Op == token.EQL || r.Op == token.NEQ) && r.Y != nil {
@@ -166,4 +335,51 @@ func mustAfterEdge(p *an.Prog, root *ssa.Function, cond func(an.Rel) bool, must 
 		}
 	}
 	return
+}
+
+// mustAfterEdgeShared is mustAfterEdge for edges whose successor is shared with other
+// predecessors (`if a && b {…} else if …`: the else block is entered from both tests).  The search
+// starts at the successor knowing what held on the edge and on the dominator chain of its source
+// (knownFacts), so that the re-tests of the same values in the else-if chain are decided.
+func mustAfterEdgeShared(p *an.Prog, root *ssa.Function, cond func(an.Rel) bool, must func(ssa.Instruction) bool) (n int, pos token.Pos, why string) {
+	m := &mustAfter{p: p, root: root, fam: familyOf(p, root, 3), must: &an.MustDo{Pred: must, Depth: 3}, depth: 3}
+	for _, fn := range m.fam {
+		for _, b := range fn.Blocks {
+			for _, s := range b.Succs {
+				if !an.EdgeHolds(b, s, cond) {
+					continue
+				}
+				n++
+				esc := m.escapesF(fn, s, 0, nil, knownFacts(b, s))
+				if w := m.follow(fn, esc, 0); w != "" && why == "" {
+					why = w
+					pos = b.Instrs[len(b.Instrs)-1].Pos()
+					for k := len(b.Instrs) - 1; k >= 0 && pos == token.NoPos; k-- {
+						pos = b.Instrs[k].Pos()
+					}
+				}
+			}
+		}
+	}
+	return
+}
+
+// mustAssuming: starting just after instruction `after` of fn and assuming the given facts, every
+// path to a return of root passes must.  Returns "" or the escaping path.
+func mustAssuming(p *an.Prog, root *ssa.Function, after ssa.Instruction, facts []an.Rel, must func(ssa.Instruction) bool) string {
+	m := &mustAfter{p: p, root: root, fam: familyOf(p, root, 3), must: &an.MustDo{Pred: must, Depth: 3}, depth: 3}
+	fn := after.Parent()
+	b := after.Block()
+	idx := 0
+	for i, x := range b.Instrs {
+		if x == after {
+			idx = i + 1
+		}
+	}
+	esc := m.escapesF(fn, b, idx, nil, facts)
+	top := fn
+	for top.Parent() != nil {
+		top = top.Parent()
+	}
+	return m.follow(top, esc, 0)
 }
